@@ -48,7 +48,7 @@ config = st.fixed_dictionaries(
 
 ALPHA = (
     ["a", "b", "c", "x1", "1", "0", "2", ".", "+", "-", "*", "/", ":", "^", "**", "~", "|", "(", ")", "[", "]",
-     "{", "}", "`", "'", '"', "%", "%in%", ",", "\\", "_", " ", "  ", "f(", "a b", "1.5", "=", "!", "$", "@", "\n"]
+     "{", "}", "`", "'", '"', "%", "%in%", ",", "\\", "_", " ", "  ", "f(", "a b", "1.5", "00", "01", "1.5.", "=", "!", "$", "@", "\n"]
     + ["a", "b", "+", ":", "(", ")", " "] * 3
 )
 
